@@ -166,6 +166,9 @@ def r4(tree, rep, tier):
                 rep.violation("C09.R4", "C09.R4:tx-before-bind:%s" % v["detail"],
                               "message `%s` is sent on a connection before `bind`" % v["detail"], v["site"],
                               detail=" > ".join(v["stack"]), trace=v["path"])
+            if v["kind"] == "reconnect-abandoned":
+                rep.violation("C09.R4", "C09.R4:reconnect-abandoned", v["detail"], v["site"],
+                              detail=" > ".join(v["stack"]), trace=v["path"])
             if v["kind"] == "Assert" and "_tx" in v["detail"]:
                 rep.violation("C09.R4", "C09.R4:send-while-disconnected", "a message is sent while disconnected (%s)" % v["detail"],
                               v["site"], detail=" > ".join(v["stack"]), trace=v["path"])
@@ -250,6 +253,10 @@ MUTANTS = [
     Mutant("drain-only-first", _M, "        for phase, body in self._pending_outbound.items():\n            self._RC.tx_add(phase, body)\n",
            "        for phase, body in self._pending_outbound.items():\n            self._RC.tx_add(phase, body)\n            break\n", "C09.R2"),
 ]
+MUTANTS.append(Mutant("ws_close-gives-up-after-reconnect-failure", RDV,
+                      "        if not self._have_made_a_successful_connection:\n            # shut down the ClientService, which currently thinks",
+                      "        if not was_open:\n            # shut down the ClientService, which currently thinks", "C09.R4",
+                      "a failed reconnect attempt (onClose without onOpen) kills the session"))
 REWRITES = [
     Rewrite("rename-output", _N, "RC_tx_release", "RC_send_release", desc="(applies only if unique)"),
     Rewrite("ws_close-reorder", RDV, "            self._N.lost()\n            self._M.lost()\n",
